@@ -182,9 +182,24 @@ def step(w, act, hist):
     return True
 
 
-def explore(depth, tier):
+def explore(depth, tier, first=None):
+    """All joint histories up to `depth`; with first=(i, j) only those whose first two actions are the i-th and then the j-th enabled ones
+    (one worker each)."""
     stack = [(W(), [])]
     seen = set()
+    if first is not None:
+        w, hist = stack.pop()
+        for idx in first:
+            acts = enabled_actions(w, tier)
+            if idx >= len(acts):
+                return
+            act = acts[idx]
+            hist = hist + [act]
+            nv = len(violations)
+            ok = step(w, act, hist)
+            if len(violations) > nv or not ok or w.terminated:
+                return
+        stack = [(w, hist)]
     while stack:
         w, hist = stack.pop()
         if len(hist) >= depth:
@@ -208,11 +223,37 @@ def explore(depth, tier):
             stack.append((w2, h2))
 
 
+def _worker(arg):
+    global n_eval
+    first, depth, tier = arg
+    n_eval = 0
+    del violations[:]
+    explore(depth, tier, first)
+    return n_eval, list(violations)[:5]
+
+
 def main():
     tier = os.environ.get("VERIF_TIER", "quick")
-    depth = int(os.environ.get("JOINT_DEPTH", "7" if tier == "quick" else "9"))
+    depth = int(os.environ.get("JOINT_DEPTH", "8" if tier == "quick" else "9"))
     t0 = time.time()
-    explore(depth, tier)
+    # one worker per pair of first actions (prefixes shorter than two actions are covered by every worker's own first steps)
+    import multiprocessing as mp
+    w0 = W()
+    a0 = enabled_actions(w0, tier)
+    pairs = []
+    for i in range(len(a0)):
+        w1 = copy.deepcopy(w0)
+        if step(w1, a0[i], [a0[i]]) and not w1.terminated:
+            for j in range(len(enabled_actions(w1, tier))):
+                pairs.append((i, j))
+    del violations[:]
+    with mp.get_context("fork").Pool(min(16, os.cpu_count() or 4)) as pool:
+        res = pool.map(_worker, [(p_, depth, tier) for p_ in pairs], chunksize=1)
+    global n_eval
+    n_eval = sum(r[0] for r in res)
+    for r in res:
+        violations.extend(r[1])
+    del violations[25:]
     out = {"evaluations": n_eval, "distinct_nontrivial": n_eval, "violations": violations, "wall_s": round(time.time() - t0, 2), "depth": depth,
            "bound": f"all joint histories of length <= {depth}: client bind/search/extended/unbind, server responses of the matching kind to received requests (final and SASL bind responses, entries, done, extended"
                     f"{', references, notice of disconnection' if tier == 'thorough' else ''}), deliveries of 1 / 3 / all pending bytes in either direction; equal joint situations merged"}
